@@ -896,7 +896,11 @@ def errors(source, model, wcshelper):
     theta = model[prefix + 'theta'].value
     err_theta = model[prefix + 'theta'].stderr
 
-    source.err_peak_flux = err_amp
+    # the peak flux error is copied, unless there is no (valid) estimate
+    if err_amp is not None and np.isfinite(err_amp) and err_amp > 0:
+        source.err_peak_flux = err_amp
+    else:
+        source.err_peak_flux = ERR_MASK
     pix_errs = [err_xo, err_yo, err_sx, err_sy, err_theta]
 
     log.debug("Pix errs: {0}".format(pix_errs))
